@@ -260,6 +260,9 @@ func run(c *lib.Ctx) error {
 					if r.Kind != "image" {
 						for k := 0; k < 3; k++ {
 							n := ns[rng.Intn(len(ns))]
+							if n < 0 || cfg.EffSnr()+n > 1<<32-1 { // numbers are 32-bit: no $Number$ twin beyond
+								continue
+							}
 							cn, ct := cfg, cfg
 							cn.Mode, ct.Mode = "tlnr", "tlt"
 							now := availMS(r, cfg, n) + 100
